@@ -567,6 +567,22 @@ func (d *packDrv) Signature(b *core.Behaviour, idx int, field string, exp, obs a
 	el, _ := em[key].([]any)
 	ol, ok := om[key].([]any)
 	if !ok {
+		// not a sequence of whole items: name the first item that is present only in part
+		if rm, isRaw := om[key].(map[string]any); isRaw {
+			cnt := map[int]int{}
+			raw, _ := rm["raw"].([]any)
+			for _, p := range raw {
+				if pp, ok := p.([]any); ok && len(pp) == 2 {
+					cnt[core.ToInt(pp[0])]++
+				}
+			}
+			for k := 1; k <= len(its); k++ {
+				if c := cnt[k]; c > 0 && c != its[k-1].n {
+					return fmt.Sprintf("%s|%s|got=partial-group(%d of %s)|%s", s.Op(), key, c, itemDesc(its[k-1]), regime)
+				}
+			}
+			return fmt.Sprintf("%s|%s|got=not-whole-items|%s", s.Op(), key, regime)
+		}
 		return fmt.Sprintf("%s|%s|got=%s|%s", s.Op(), key, clipS(core.J(om[key]), 40), regime)
 	}
 	for i := 0; i < len(el) || i < len(ol); i++ {
